@@ -746,6 +746,9 @@ spif_mbuff_trim(spif_mbuff_t self)
     spif_byteptr_t start, end;
 
     ASSERT_RVAL(!SPIF_MBUFF_ISNULL(self), FALSE);
+    if (self->len == 0) {
+        return TRUE;
+    }
     start = self->buff;
     end = self->buff + self->len - 1;
     for (; isspace((spif_uchar_t) (*start)) && (start < end); start++);
